@@ -223,6 +223,10 @@ impl<T: Types> FlushWorker<T> {
                 max_seq = max_seq.max(nf_seq);
             }
 
+            // Chunk files whose removal was postponed by a failed sync are
+            // removed as soon as a later sync has succeeded.
+            self.remove_postponed_chunks()?;
+
             self.done_seq.store(max_seq, Ordering::Relaxed);
         }
     }
@@ -254,19 +258,29 @@ impl<T: Types> FlushWorker<T> {
             WorkerRequest::RemoveChunks { chunk_paths } => {
                 info!("FlushWorker: RemoveChunks: {:?}", chunk_paths);
                 self.postponed_removals.extend(chunk_paths);
-                if self.last_sync_failed {
-                    log::error!(
-                        "FlushWorker: last sync failed, keep chunks: {:?}",
-                        self.postponed_removals
-                    );
-                    return Ok(());
-                }
-                for path in std::mem::take(&mut self.postponed_removals) {
-                    std::fs::remove_file(path)?;
-                }
+                self.remove_postponed_chunks()?;
             }
         }
 
+        Ok(())
+    }
+
+    /// Removes the chunk files queued for removal, oldest first, unless the
+    /// last sync failed: then they are kept until a later sync succeeds.
+    fn remove_postponed_chunks(&mut self) -> Result<(), io::Error> {
+        if self.postponed_removals.is_empty() {
+            return Ok(());
+        }
+        if self.last_sync_failed {
+            log::error!(
+                "FlushWorker: last sync failed, keep chunks: {:?}",
+                self.postponed_removals
+            );
+            return Ok(());
+        }
+        for path in std::mem::take(&mut self.postponed_removals) {
+            std::fs::remove_file(path)?;
+        }
         Ok(())
     }
 
